@@ -23,7 +23,7 @@ ASSUMPTIONS = ['mean/std estimator is numpy mean/std of the leading min(N,len) s
                'inputs whose squares overflow a double are outside the domain']
 REQUIRED_CLASSES = ['kind=real', 'kind=complex', 'kind=free_real', 'kind=free_complex', 'period>1', 'period<=0',
                     'dist=const_inexact', 'dist=const_exact', 'dist=const_huge', 'dist=huge', 'dist=tiny', 'dist=lead_const', 'custom=scalar', 'custom=pair', 'dist=int_const', 'dist=int_var', 'period>256', 'period_numpy_int',
-                    'mixed_clip', 'refresh_and_hold']
+                    'mixed_clip', 'refresh_and_hold', 'entry=digitize', 'entry=digitize_pos', 'entry=quantize_pos']
 
 FWHM_M = 2 * math.sqrt(2 * math.log(2))
 
@@ -64,7 +64,9 @@ custom = st.one_of(st.none(), st.none(),
                    st.fixed_dictionaries({'form': st.just('scalar'), 'v': gen.finite(1e-18, 1e-12)}))
 
 call_spec = st.fixed_dictionaries({'re': arr_spec, 'im': arr_spec, 'custom': custom,
-                                   'reset': st.sampled_from([False, False, False, False, True])})
+                                   'reset': st.sampled_from([False, False, False, False, True]),
+                                   # public entry point / call style of the real quantiser (digitize is its documented wrapper)
+                                   'entry': st.sampled_from(['quantize', 'quantize', 'digitize', 'digitize_pos', 'quantize_pos'])})
 
 
 def strategy(tier):
@@ -256,7 +258,16 @@ def run_case(case, ctx):
                             cs, arg = [cu['v'][0]] * 2, cu['v'][0]
                 if kind == 'real':
                     exp, mask, y, refr = refs[0].step(xr, cs[0])
-                    ok, q = core.call(obs, 'quantize', qz.quantize, xr.copy(), custom_std=arg)
+                    entry = c.get('entry', 'quantize')
+                    obs.cls('entry=' + entry)
+                    if entry == 'digitize':
+                        ok, q = core.call(obs, 'digitize', qz.digitize, xr.copy(), custom_std=arg)
+                    elif entry == 'digitize_pos':
+                        ok, q = core.call(obs, 'digitize', qz.digitize, xr.copy(), arg)
+                    elif entry == 'quantize_pos':
+                        ok, q = core.call(obs, 'quantize', qz.quantize, xr.copy(), arg)
+                    else:
+                        ok, q = core.call(obs, 'quantize', qz.quantize, xr.copy(), custom_std=arg)
                     if ok:
                         check_out(obs, 'real', q, exp, mask, y, xr, bits)
                 else:
@@ -375,7 +386,8 @@ def decode_bytes(fdp):
         tmean = fdp.ConsumeIntInRange(-3, 2) + rng(0.01, 0.49)
     else:
         tmean = fdp.ConsumeIntInRange(-3, 2) + rng(0.51, 0.99)
-    calls = [{'re': arr(), 'im': arr(), 'custom': custom_(), 'reset': fdp.ConsumeIntInRange(0, 4) == 4}
+    calls = [{'re': arr(), 'im': arr(), 'custom': custom_(), 'reset': fdp.ConsumeIntInRange(0, 4) == 4,
+              'entry': pick(['quantize', 'quantize', 'digitize', 'digitize_pos', 'quantize_pos'])}
              for _ in range(fdp.ConsumeIntInRange(1, 12))]
     return {'kind': pick(['real', 'complex', 'free_real', 'free_complex']), 'bits': fdp.ConsumeIntInRange(2, 8), 'tmean': tmean,
             'fwhm': 32.0 if fdp.ConsumeBool() else rng(0.5, 64.0), 'period': pick([-3, -1, 0, 1, 2, 3, 5, 257, 300]),
